@@ -255,7 +255,52 @@ fn mean_ci<F: Fl>(case: &Value) -> Value {
     };
     ev["out"] = out;
     ev["stats"] = stats;
+    if (fl == "geo" || fl == "harm") && case.get("aux").and_then(|b| b.as_bool()).unwrap_or(false)
+        && a.iter().all(|x| x.is_finite() && *x > F::zero()) && !a.is_empty()
+    {
+        ev["auxv"] = aux_transformed::<F>(fl, &a, &conf);
+        ev["aux_present"] = json!(true);
+    } else if fl == "geo" || fl == "harm" {
+        ev["aux_present"] = json!(false);
+    }
+    if fl == "paired" && a.len() == b.len() {
+        // observation: the arithmetic-mean interval of the differences formed with the same float subtraction
+        let diffs: Vec<F> = a.iter().zip(b.iter()).map(|(x, y)| *x - *y).collect();
+        ev["diffci"] = outcome(|| Arithmetic::<F>::ci(conf, &diffs));
+    }
     ev
+}
+
+/// Observations in the transformed space for geometric / harmonic means (C05): the crate's own
+/// arithmetic results on ln(x) resp. 1/x, and samples (x, exp x) of the exponential - the
+/// transcendental functions are uninterpreted in the specification.
+fn aux_transformed<F: Fl>(fl: &str, a: &[F], conf: &Confidence) -> Value {
+    let level = conf.level();
+    let tr: Vec<F> = if fl == "geo" { a.iter().map(|x| x.ln()).collect() } else { a.iter().map(|x| F::one() / *x).collect() };
+    let mut aux = json!({});
+    let kinds = [("two", Confidence::new_two_sided(level)), ("upper", Confidence::new_upper(level)), ("lower", Confidence::new_lower(level))];
+    for (nm, c) in kinds.iter() {
+        let o = outcome(|| Arithmetic::<F>::ci(*c, &tr));
+        if fl == "geo" {
+            // samples of exp at the bounds actually returned
+            if let Ok(Ok(iv)) = catch_unwind(AssertUnwindSafe(|| Arithmetic::<F>::ci(*c, &tr))) {
+                let mut e = json!({});
+                if let Some(x) = iv.left() { e["lo"] = x.exp().enc(); }
+                if let Some(x) = iv.right() { e["hi"] = x.exp().enc(); }
+                aux[format!("exp_{}", nm)] = e;
+            }
+        }
+        aux[format!("arith_{}", nm)] = o;
+    }
+    if let Ok(s) = Arithmetic::<F>::from_iter(&tr) {
+        aux["tmean"] = stat(|| s.sample_mean());
+        aux["tsem"] = stat(|| s.sample_sem());
+        if fl == "geo" { aux["exp_tmean"] = stat(|| s.sample_mean().exp()); }
+    }
+    if let Ok(s) = Arithmetic::<F>::from_iter(&a.to_vec()) { aux["amean"] = stat(|| s.sample_mean()); }
+    if let Ok(s) = Geometric::<F>::from_iter(&a.to_vec()) { aux["gmean"] = stat(|| s.sample_mean()); }
+    if let Ok(s) = Harmonic::<F>::from_iter(&a.to_vec()) { aux["hmean"] = stat(|| s.sample_mean()); }
+    aux
 }
 
 // ------------------------------------------------------------------------- proportion
